@@ -148,6 +148,19 @@ impl EntropyNormalizer {
             }
         }
         
+        // `min(remaining)` above can leave late symbols with 0 slots once the rounded allocations have
+        // used up the table: give each of them one slot taken from the currently largest symbol.
+        for i in 0..normalized.len() {
+            if frequencies[i] > 0 && normalized[i] == 0 {
+                if let Some(j) = (0..normalized.len()).max_by_key(|&j| normalized[j]) {
+                    if normalized[j] > 1 {
+                        normalized[j] -= 1;
+                        normalized[i] = 1;
+                    }
+                }
+            }
+        }
+
         // Distribute remaining frequency to most frequent symbols
         while remaining > 0 {
             let mut max_original_freq = 0;
@@ -494,6 +507,18 @@ impl FseTable {
             }
         }
         
+        // `min(remaining)` above can leave late symbols with 0 slots: take one from the largest symbol
+        for i in 0..=max_symbol as usize {
+            if frequencies[i] > 0 && normalized_freqs[i] == 0 {
+                if let Some(j) = (0..normalized_freqs.len()).max_by_key(|&j| normalized_freqs[j]) {
+                    if normalized_freqs[j] > 1 {
+                        normalized_freqs[j] -= 1;
+                        normalized_freqs[i] = 1;
+                    }
+                }
+            }
+        }
+
         // Distribute remaining entries
         while remaining > 0 {
             let mut max_freq = 0;
